@@ -59,9 +59,9 @@ pub fn fault_variants(base: &Case, base_out: &RunOut, setup_ops: u64, thorough: 
     // faults are biased towards the commit point: every replacement of meta.json and every directory
     // sync of the workload phase is a fault point too (quick tier: up to 12 of them)
     let mut cps = base_out.commit_point_ops.clone();
-    if !thorough && cps.len() > 12 {
+    if !thorough && cps.len() > 18 {
         rng.shuffle(&mut cps);
-        cps.truncate(12);
+        cps.truncate(18);
     }
     let mut v = vec![];
     if !thorough {
